@@ -14,14 +14,14 @@ NODE2 = "TTGACCGATAGGCATCAAGT"
 def RN(i):
     """name of the i-th read: text order is the REVERSE of input order, so that equal priorities broken by record
     text can never restore the input order by accident"""
-    return f"r{100 - i}"
+    return f"r{100000 - i}"
 
 
 def prio_of(name):
-    return 100 - int(name[1:]) if name[1:].isdigit() else 0
+    return 100000 - int(name[1:]) if name[1:].isdigit() else 0
 
 
-def make_inputs(d, R, long_at=0):
+def make_inputs(d, R, long_at=0, bgzf_aligned=False):
     """tiny graph, R reads aligned to >s1>s2 (each with its own substitution); long_at = k > 0: the k-th read is an
     ultra-long one (60,001 aligned bases on a third node), which realign passes through without realigning"""
     os.makedirs(d, exist_ok=True)
@@ -59,6 +59,15 @@ def make_inputs(d, R, long_at=0):
             g.write(
                 f"{RN(i)}\t{L}\t0\t{L}\t+\t>s1>s2\t{len(path)}\t{ps}\t{pe}\t{L-1}\t{L}\t60\ttp:A:P\tcg:Z:{L}=\n"
             )
+    if bgzf_aligned:
+        # the same records as a multi-block BGZF file > 1 MiB in which records start exactly at 64 KiB ... 1 MiB
+        from readers import align_starts, starts_of, write_bgzf
+
+        lines = align_starts(open(gaf).read().splitlines(), [1 << 16, 1 << 17, 1 << 18, 1 << 19, 1 << 20])
+        assert (1 << 20) in starts_of(lines), "alignment of record starts failed"
+        os.unlink(gaf)
+        gaf = gaf + ".gz"
+        write_bgzf(gaf, ("\n".join(lines) + "\n").encode(), 65280)
     import pysam
 
     pysam.FastaFile(fa).close()  # builds the .fai once
@@ -262,10 +271,10 @@ def explore_config(ctx, k, n_random_walks, n_random_sched, max_tour=None):
         ctx.sample({"cfg": key, "random_schedule_trace": [f"{e['t']}({e.get('w','')})" for e in c["trace"]][:60], "end": c["end"]})
 
 
-def real_mp_tier(ctx, R, B, C, kill_at=None, delay=None):
+def real_mp_tier(ctx, R, B, C, kill_at=None, delay=None, bgzf_aligned=False):
     """Real multiprocessing end to end (trusted-base cross-check of the fake layer)."""
     d = os.path.join(ctx.scratch, f"real_{R}_{B}_{C}_{kill_at}")
-    gaf, gfa, fa = make_inputs(d, R)
+    gaf, gfa, fa = make_inputs(d, R, bgzf_aligned=bgzf_aligned)
     out = os.path.join(d, "out.gaf")
     env = dict(os.environ, GAFTOOLS_VERIF="1", GAFTOOLS_VERIF_BATCH_SIZE=str(B), PYTHONPATH=REPO)
     if delay:
@@ -273,7 +282,7 @@ def real_mp_tier(ctx, R, B, C, kill_at=None, delay=None):
     driver = os.path.join(os.path.dirname(os.path.dirname(os.path.abspath(__file__))), "realmp_driver.py")
     cmd = [sys.executable, driver, gaf, gfa, fa, out, str(C), "" if kill_at is None else f"{kill_at[0]}:{kill_at[1]}:{kill_at[2]}"]
     try:
-        p = subprocess.run(cmd, env=env, capture_output=True, text=True, timeout=60)
+        p = subprocess.run(cmd, env=env, capture_output=True, text=True, timeout=60 if R < 1000 else 300)
         rc = p.returncode
         hung = False
     except subprocess.TimeoutExpired:
